@@ -1,7 +1,7 @@
 """C08 - ORM backends pass every filter value to the database as a bound parameter.
 
-TLC (MC_C08) generates pairs of filters that differ only in literal values: 35 skeletons with one or two literal
-holes (comparison operands, in-lists, arithmetic between literals, function arguments, lambdas, paths) x value
+TLC (MC_C08) generates pairs of filters that differ only in literal values: 38 skeletons with one or two literal
+holes (in-lists of 1000-2100 elements, comparison operands, in-lists, arithmetic between literals, function arguments, lambdas, paths) x value
 pairs per kind (strings with SQL metacharacters and LIKE wildcards, integers incl. beyond 64 bits, floats, dates,
 date-times, times, durations, GUIDs).  Django, SQLAlchemy ORM (select and legacy Query) and SQLAlchemy Core compile
 both members (post-compile rendering on, i.e. what the driver receives); the pair of (SQL text, parameter list) is
@@ -20,6 +20,7 @@ U = project.uncps
 
 def value_alts(kind, sp):
     """parameter spellings under which a literal may legitimately reach the driver (plumbing)"""
+    kind = kind.replace("Long", "")
     if kind == "Integer":
         return [str(int(sp))], ([str(abs(int(sp)))] if len(sp.lstrip("-")) >= 4 else [])
     if kind == "Float":
@@ -56,11 +57,11 @@ def compile_all(sa):
 
 
 def run(ctx):
-    ctx.rule = ("35 filter skeletons x value pairs per literal kind (141 pairs) x {Django, SQLAlchemy select, legacy Query, "
+    ctx.rule = ("38 filter skeletons (incl. an in-list of 1000 integers; thorough: also 1000 strings and 2100 + 1200 integers under not / any) x value pairs per literal kind x {Django, SQLAlchemy select, legacy Query, "
                 "Core}; non-trivial = distinct (pair, backend) whose two compilations were obtained and compared")
     ctx.trusted = ["spec/SqlLex.tla", "value_alts(): spellings under which a Python value appears in a parameter list",
                    "SQLAlchemy compile with render_postcompile=True and Django sql_with_params() as 'what the driver receives'"]
-    res = tlc.run("MC_C08", keep_lines=lambda r: r.get("k") == "case", timeout=3000)
+    res = tlc.run("MC_C08", constants={"LongN": 1 if ctx.tier == "quick" else 3}, keep_lines=lambda r: r.get("k") == "case", timeout=3000)
     ctx.add_tlc(res)
     if res.violation:
         ctx.violation({"kind": "model", "inv": res.violation}, {"tlc": res.raw_tail[-2000:]})
